@@ -215,6 +215,8 @@ class Sim:
             self.leaves.append(mv)
         ens = p["ensemble"]
         kw = dict(temperature=p.get("T", 300.0), seed=p["seed"], max_cycles=p.get("max_cycles", 2), logfile=p.get("logfile"))
+        if p.get("default_max_cycles"):
+            del kw["max_cycles"]      # left to the constructor's default (one cycle per atom present at construction)
         if ens == "canonical":
             mc = Canonical(atoms, **kw)
         elif ens == "hamiltonian":
@@ -310,7 +312,17 @@ class Sim:
         fresh_atoms = atoms.copy()
         fresh_atoms.calc = LennardJones(sigma=1.5, epsilon=0.01, rc=4.0) if self.p.get("calc") == "lj" else PairPot("caching")
         fresh = float(fresh_atoms.get_potential_energy())
-        f_rep, f_fresh = np.array(atoms.get_forces(), dtype=float), np.array(fresh_atoms.get_forces(), dtype=float)
+        f_fresh = np.array(fresh_atoms.get_forces(), dtype=float)
+        if self.p.get("passive_probe"):
+            # nobody asks for forces between the trials (asking refreshes what the context saves): only what the calculator HOLDS for the current
+            # atoms is looked at (seeded change C04-11: a rejection leaves the rejected trial's forces among the results)
+            held = getattr(atoms.calc, "results", {}).get("forces")
+            in_sync = not atoms.calc.check_state(atoms)
+            # (what is held is the raw result: compared with the raw forces of the fresh evaluation, not with the constraint-adjusted ones get_forces() returns)
+            f_fresh = np.array(fresh_atoms.get_forces(apply_constraint=False), dtype=float)
+            f_rep = np.array(held, dtype=float) if (held is not None and in_sync) else f_fresh
+        else:
+            f_rep = np.array(atoms.get_forces(), dtype=float)
         forces_ok = bool(f_rep.shape == f_fresh.shape and np.allclose(f_rep, f_fresh, rtol=1e-9, atol=1e-12))
         return {"forces_ok": forces_ok, "forces_max_error": float(np.max(np.abs(f_rep - f_fresh))) if f_rep.shape == f_fresh.shape and f_rep.size else 0.0, "reported": reported, "fresh": fresh, "reference": float(ctx.last_potential_energy), "probe_cost": None if ev0 is None else ev1 - ev0,
                 "evaluations": ev1, "last_pos_ok": bool(np.array_equal(ctx.last_positions, atoms.positions)),
